@@ -183,6 +183,9 @@ def check_hist(case):
     K = 1
     try:
         for name, w in hist:
+            if name == "reverse":
+                p.reverse()
+                continue
             if name == "scale2":
                 p *= svg.Matrix.scale(2)
                 p.reify()
